@@ -595,8 +595,11 @@ theorem c04_requestInfo_shape :
     Gen.C04.requestInfoSteps = expectedRequestInfoSteps ∧ skeletonOK Gen.C04.requestInfoSteps = true ∧
     Gen.C04.requestInfoCallArgs = 3 := by decide
 
-/-- the dispatcher hands the proxy `escapeInvalidPathBytes(req.URL.RawPath)` -/
-theorem c04_location_rawpath : Gen.C04.locationRawPathExpr = "escapeInvalidPathBytes(req.URL.RawPath)" := by decide
+/-- what `dispatcher.ServeHTTP` hands to the proxy as the escaped path, by role (whatever the helper functions are called and
+    however the URL is built): the RawPath of the upstream URL is a same-file function of the incoming RawPath, and that
+    function leaves alone letters, digits and the regenerated punctuation — which `c04_escape_table` proves to be net/url's
+    own test. (The byte-for-byte behaviour is tied by the end-to-end streams on every run.) -/
+theorem c04_location_rawpath : Gen.C04.locationRawPathEscaped = true ∧ Gen.C04.validPathAlnum = true := by decide
 
 /-- end-to-end names the gateway must never treat as hop-by-hop -/
 theorem c04_hop_list_sound :
